@@ -220,20 +220,24 @@ def run(ctx):
             outcome = 1
         except AssertionError:
             outcome = 2
+        except Exception:
+            outcome = 4                      # any other exception: no outcome of the model matches -> reported as a disagreement
+        kap = 1.0
         if outcome == 0:
             if not (np.all(np.isfinite(b)) and np.isfinite(rho)):
                 ctx.count('ma_skipped_nonfinite'); continue
-            a1, p1, _ = aryule_impl(x, M, 'biased')
-            r0 = np.sum(np.abs(x) ** 2) / N
-            aa = np.insert(a1, 0, 1); _, p2, _ = aryule_impl(aa, Q, 'biased'); r02 = np.sum(np.abs(aa) ** 2) / len(aa)
-            kap = max(1.0, abs(r0) / max(abs(p1), 1e-300)) * max(1.0, abs(r02) / max(abs(p2), 1e-300))
+            try:
+                a1, p1, _ = aryule_impl(x, M, 'biased')
+                r0 = np.sum(np.abs(x) ** 2) / N
+                aa = np.insert(a1, 0, 1); _, p2, _ = aryule_impl(aa, Q, 'biased'); r02 = np.sum(np.abs(aa) ** 2) / len(aa)
+                kap = max(1.0, abs(r0) / max(abs(p1), 1e-300)) * max(1.0, abs(r02) / max(abs(p2), 1e-300))
+            except Exception:
+                kap = 1.0
             if kap > 1e4:
                 ctx.count('ma_regenerated_illconditioned'); continue
-        else:
-            kap = 1.0
         cases.append('ma_case %s %s %d%%nat %d%%nat %d%%nat %s %s' % (tolq(1e-9 * kap), czl(x), Q, M, outcome, czl(b), cz(rho)))
         meta.append({'function': 'arma.ma', 'x': vlib.hexv(x), 'Q': Q, 'M': M, 'outcome': outcome})
-        ctx.count('corr/ma/%s/%s' % ('complex' if cplx else 'real', ['returned', 'ValueError', 'AssertionError'][outcome]))
+        ctx.count('corr/ma/%s/%s' % ('complex' if cplx else 'real', ['returned', 'ValueError', 'AssertionError', '-', 'other exception'][outcome]))
         ctx.case(('ma', x.tobytes(), Q, M), nontrivial=(outcome == 0 and Q >= 1), sample={'function': 'arma.ma vs Model.MaEst.ma_est', 'N': N, 'Q': Q, 'M': M, 'outcome': outcome})
     for i in ctx.coq_cases('c04_ma', PRE_MA, cases, shard=40, descr='arma.ma vs Model/MaEst.v at QcC (outcome, MA parameters, rho)'):
         ctx.corr_disagreement('arma.ma', i, meta[i])
